@@ -400,8 +400,8 @@ impl<'p, C: SimCfg> World<'p, C> {
                 .with_sparse_saving_mode(cfg.sparse)
                 .with_fps(cfg.fps)
                 .map_err(|e| e.to_string())?
-                .with_disconnect_timeout(Duration::from_millis(cfg.timeout_ms))
-                .with_disconnect_notify_delay(Duration::from_millis(cfg.notify_ms))
+                .with_disconnect_timeout(Duration::from_millis(ns.timeout_ms.unwrap_or(cfg.timeout_ms)))
+                .with_disconnect_notify_delay(Duration::from_millis(ns.notify_ms.unwrap_or(cfg.notify_ms)))
                 .with_desync_detection_mode(if cfg.desync_interval > 0 {
                     DesyncDetection::On { interval: cfg.desync_interval }
                 } else {
@@ -711,8 +711,8 @@ impl<'p, C: SimCfg> World<'p, C> {
         }
         let exact_timing = o.lifecycle_timing && !self.plan.nodes[i].tick.use_wait && self.plan.cfg.clock_bump_us == 0;
         let t = self.now;
-        let notify = self.plan.cfg.notify_ms * 1000;
-        let timeout = self.plan.cfg.timeout_ms * 1000;
+        let notify = self.plan.nodes[i].notify_ms.unwrap_or(self.plan.cfg.notify_ms) * 1000;
+        let timeout = self.plan.nodes[i].timeout_ms.unwrap_or(self.plan.cfg.timeout_ms) * 1000;
         let addrs: Vec<Addr> = self.nodes[i].watch.keys().copied().collect();
         let mut all_synced = true;
         for x in addrs {
@@ -1781,6 +1781,15 @@ impl<'p, C: SimCfg> World<'p, C> {
                             }
                         }
                     }
+                }
+            }
+        }
+        // C10 runs: mark every violation of a run in which the survivors hold different last frames
+        // for the dead peer's players (the precondition of the recorded C10 finding)
+        if plan.oracle.survivor_agreement && self.survivors_split() {
+            for v in self.viol.iter_mut() {
+                if !v.class.ends_with("+split") {
+                    v.class.push_str("+split");
                 }
             }
         }
